@@ -1119,10 +1119,12 @@ class Engine:
             for val, bb in arms:
                 if v == val:
                     return bb
-            # signed discriminants print as unsigned
-            for val, bb in arms:
-                if val >= (1 << 63) and v == val - (1 << 64):
-                    return bb
+            # signed discriminants print as unsigned (of the discriminant's width: Ordering::Less is 255)
+            if isinstance(v, int) and v < 0:
+                for val, bb in arms:
+                    for w in (8, 16, 32, 64, 128):
+                        if val >= (1 << (w - 1)) and val < (1 << w) and v == val - (1 << w):
+                            return bb
             return other
         if z3.is_bool(v):
             conds = []
